@@ -395,6 +395,7 @@ pub fn run_encoding(
     simplify: bool,
     entry: u64,
     unrolls: u64,
+    prior: Option<(u64, u64)>,
 ) -> Outcome<EncodingInfo> {
     use patronus::mc::{TransitionSystemEncoding, UnrollSmtEncoding};
     use patronus::smt::{Logic, SolverContext};
@@ -415,9 +416,22 @@ pub fn run_encoding(
         } else {
             Logic::QfAbv
         };
-        smt_ctx.set_logic(logic).map_err(|e| format!("{e} [{e:?}]"))?;
+        smt_ctx.set_logic(logic.clone()).map_err(|e| format!("{e} [{e:?}]"))?;
         let mut enc = UnrollSmtEncoding::new(&mut ctx, &sys, false);
         enc.define_header(&mut smt_ctx).map_err(|e| format!("{e} [{e:?}]"))?;
+        if let Some((entry0, unrolls0)) = prior {
+            // an earlier use of the same encoder object: unroll from another step, then restart
+            // the solver (a new process that knows none of the old symbols) and start over
+            enc.init_at(&mut ctx, &mut smt_ctx, entry0)
+                .map_err(|e| format!("{e} [{e:?}]"))?;
+            for _ in 0..unrolls0 {
+                enc.unroll(&mut ctx, &mut smt_ctx)
+                    .map_err(|e| format!("{e} [{e:?}]"))?;
+            }
+            smt_ctx.restart().map_err(|e| format!("{e} [{e:?}]"))?;
+            smt_ctx.set_logic(logic).map_err(|e| format!("{e} [{e:?}]"))?;
+            enc.define_header(&mut smt_ctx).map_err(|e| format!("{e} [{e:?}]"))?;
+        }
         enc.init_at(&mut ctx, &mut smt_ctx, entry)
             .map_err(|e| format!("{e} [{e:?}]"))?;
         for _ in 0..unrolls {
